@@ -52,6 +52,9 @@ func main() {
 		for _, c := range corpus() {
 			e.Emit(c)
 		}
+		for _, c := range varintCorpus(rand.New(rand.NewSource(11))) {
+			e.Emit(c)
+		}
 		// the large-value cases are expensive to evaluate: they are spread over the case files, one every few hundred cases
 		pendingLarge := largeCorpus()
 		vol := map[string]int{
@@ -63,6 +66,7 @@ func main() {
 			"hold":     e.Scale(250, 4000),
 			"large":    e.Scale(8, 60),
 			"parallel": e.Scale(3, 20),
+			"reuse":    e.Scale(8, 100),
 		}
 		if e.Search && e.Focus != "" {
 			f := strings.SplitN(e.Focus, "/", 2)[0]
@@ -80,6 +84,13 @@ func main() {
 			sub := e.Rnd.Int63()
 			for _, c := range genLarge(rand.New(rand.NewSource(sub)), e) {
 				c.Replay = fmt.Sprintf("large:%d", sub)
+				pendingLarge = append(pendingLarge, c)
+			}
+		}
+		for i := 0; i < vol["reuse"]; i++ {
+			sub := e.Rnd.Int63()
+			for _, c := range genReuse(rand.New(rand.NewSource(sub)), e) {
+				c.Replay = fmt.Sprintf("reuse:%d", sub)
 				pendingLarge = append(pendingLarge, c)
 			}
 		}
@@ -110,7 +121,7 @@ func main() {
 		for _, c := range pendingLarge {
 			e.Emit(c)
 		}
-		e.Meta["generator"] = "c10/v4"
+		e.Meta["generator"] = "c10/v5"
 		e.Meta["experiments"] = vol
 		e.Meta["string_prefix_cap_stream"] = prefixCap
 	})
